@@ -190,7 +190,8 @@ def main():
     if not nfail:
         for oid, r in sorted(unlisted_bad.items()):
             was = base.get(oid)
-            if r["status"] == "refuted" and was == "discharged" and (r.get("complete") or not _has_ghost_folds(r)):
+            closed_static = r["status"] == "refuted" and r.get("complete") and r.get("backend") in ("static-scan", "lean")
+            if closed_static or (r["status"] == "refuted" and was == "discharged" and (r.get("complete") or not _has_ghost_folds(r))):
                 path = os.path.join(rdir, "refuted_%s.py" % "".join(ch if ch.isalnum() else "_" for ch in oid))
                 body = "print(%r)\nprint(%r)\nsys.exit(1)\n" % ("obligation %s was discharged on the baseline and is now refuted by the solver" % oid,
                                                                (r.get("model") or "")[:3000])
